@@ -22,7 +22,7 @@ from pyvc import run as RUN  # noqa
 from pyvc import lemmas as LEM  # noqa
 import pyvc.pandas_model  # noqa  (registers the assumed pandas contracts)
 
-CONTRACT_MODULES = ['filter_utils', 'generic_helper', 'validation', 'profiler', 'missing_value_handler', 'externals', 'token_ordering', 'token_ordering2', 'position', 'position_build', 'position_fc', 'set_sim_join', 'join_drivers', 'overlap', 'candset', 'size', 'matcher', 'ovcoeff', 'prefix', 'editdist', 'prefix_tables', 'position_tables']
+CONTRACT_MODULES = ['filter_utils', 'generic_helper', 'validation', 'profiler', 'missing_value_handler', 'externals', 'token_ordering', 'token_ordering2', 'position', 'position_build', 'position_fc', 'set_sim_join', 'join_drivers', 'overlap', 'candset', 'size', 'matcher', 'ovcoeff', 'prefix', 'editdist', 'prefix_tables', 'position_tables', 'prefix_pair']
 
 
 def load_contracts():
@@ -383,6 +383,19 @@ def check_property(pid, tier='quick', seed=0):
                 if exit_code != 3:
                     exit_code = 1
             break
+    lean_status = 'not run (quick tier; run lemmas/check_lemmas.sh or the thorough tier)'
+    if tier == 'thorough':
+        # the Lean 4 / Mathlib proofs of the pure-mathematics lemmas are re-checked (trusted base, not an obligation)
+        try:
+            lp = subprocess.run([os.path.join(HERE, 'lemmas', 'check_lemmas.sh')], capture_output=True, text=True, timeout=1800)
+            lean_status = (lp.stdout + lp.stderr).strip().splitlines()[-1] if (lp.stdout + lp.stderr).strip() else 'no output'
+            if lp.returncode != 0:
+                print('pyvc: lemmas/Lemmas.lean is not accepted by lean: ' + lean_status)
+                exit_code = 3
+        except Exception as e_:
+            lean_status = 'could not run lean: %s' % e_
+            print('pyvc: ' + lean_status)
+            exit_code = 3
     if machinery_error:
         print('pyvc: machinery error:\n' + machinery_error)
         exit_code = 3
@@ -411,7 +424,7 @@ def check_property(pid, tier='quick', seed=0):
                             solver_time_s=round(sum(r['secs'] for r in all_results), 3),
                             lemmas=[dict(name=r['name'], status=r['status'], secs=r['secs']) for r in lemma_results],
                             undischarged=[dict(name=r['name'], status=r['status']) for r in failing],
-                            known_findings_hit=known_hit,
+                            known_findings_hit=known_hit, lean_lemmas=lean_status,
                             bounded_standins=[dict(contract=b['fn'], case=b['case'], kind=b.get('kind'), cases_run=b.get('cases_run', 0),
                                                    failures=len(b.get('failures', [])), secs=b.get('secs'),
                                                    scope_exhausted=b.get('generator_exhausted'))
